@@ -362,7 +362,9 @@ def create_for_folder_subcommand(
                                 missing_asc_mhl_folder.discard(not_found_path)
                                 missing_asc_mhl_folder.add(new_path)
                         found_file_paths.add(not_found_path)
-                else:
+                elif not os.path.isdir(os.path.join(root_path, new_path)):
+                    # only files can be hashed again in the format of the former record (folders that are new to a
+                    # generation, e.g. the folders inside a nested history, are candidates as well)
                     old_hash_format_for_new_path = hasher.hash_file(
                         os.path.join(root_path, new_path), not_found_path_hash.hash_format
                     )
